@@ -18,9 +18,18 @@ MapCtors == {"dict", "odict", "ddict", "mapping", "mmapping", "mproxy", "chainma
 Types1 ==
   Leaves
   \cup { t \in Ctor1(Leaves, KeyLeaves) : t[1] \in MapCtors => (t[2] \in RepKeys \/ t[3] \in RepLeaves) }
+\* collections whose ELEMENTS are nullable (the None short-circuit must survive every enclosing context:
+\* bare codec, required field, Optional field, field defaulting to None)
+NullableElems == { <<"opt", e>> : e \in { <<"int">>, <<"str">>, <<"date">> } }
+Types1N == { <<c, e>> : c \in {"list", "vtuple", "deque", "seq"}, e \in NullableElems }
+           \cup { <<"dict", <<"str">>, e>> : e \in NullableElems }
+           \cup { <<"tuple", <<e, <<"opt", <<"str">> >> >> >> : e \in NullableElems }
+           \cup { <<"utuple", <<e>>, e, <<e>> >> : e \in NullableElems }
+           \cup { <<"ntuple", "NT", << <<"a", e, <<"req">> >>, <<"b", <<"opt", <<"int">> >>, <<"val", None>> >> >> >> : e \in NullableElems }
+           \cup { <<"tdict", "TD", << <<"k", e, TRUE>>, <<"o", e, FALSE>> >> >> : e \in NullableElems }
 Inner2 == { t \in Ctor1(RepLeaves, RepKeys) : t[1] \in {"list", "dict", "opt", "tuple", "set", "ntuple", "tdict", "deque", "chainmap", "utuple", "odict"} }
 Types2 == { t \in Ctor1(Inner2, RepKeys) : t[1] \in {"list", "dict", "opt", "tuple", "vtuple", "ntuple", "tdict", "odict", "utuple", "newtype", "mproxy"} }
-Types == IF Depth = 0 THEN Leaves ELSE IF Depth = 1 THEN Types1 ELSE Types2
+Types == IF Depth = 0 THEN Leaves ELSE IF Depth = 1 THEN Types1 \cup Types1N ELSE Types2
 FalsyLeaves == { <<"int">>, <<"float">>, <<"bool">>, <<"str">>, <<"bytes">>, <<"timedelta">>, <<"text", "decimal">>, <<"text", "fraction">> }
 AllTypes == Types \cup { Holder(t) : t \in Types } \cup { PlainHolder(t) : t \in Types }
             \cup { FalsyHolder(t, FirstOf(Smp(t))) : t \in Types \cap FalsyLeaves }
